@@ -207,9 +207,12 @@ def run(tier, seed, replay=None):
         ops, info, ids, ok = parse_trace(os.path.join(base, "c%d.trace" % ci), d, marker)
         label = "%s v%s existing=%s%s" % (case["kind"], case["cfg"].split(" ")[0], case.get("existing", "archive"), " dirty" if case.get("dirty") else "")
         res.case("clean " + label + " #%d" % ci)
-        if out != "OK" or not ok or not os.path.exists(dst):
+        if out != "OK" or not os.path.exists(dst):
             res.broken.append(("trace", {"case": label, "out": out, "translator_ok": ok}))
             continue
+        if not ok:
+            # a call the translator does not model: the theorem cannot be applied to this trace; the injections below still search for a failing crash point
+            res.broken.append(("trace", {"case": label, "what": "the trace contains file-system calls outside the model (e.g. copy_file_range): C12_discipline_sound cannot be applied", "translator_ok": ok}))
         new = open(dst, "rb").read()
         if case["kind"] == "compact":
             pre = d + "/out.mpq.pre"
@@ -226,23 +229,23 @@ def run(tier, seed, replay=None):
         mo = C.run_lines([C.MODELRUN], [mline], timeout=600)[0].split(" ")
         if len(mo) != 3:
             res.broken.append(("model-run", {"case": label, "out": " ".join(mo)[:200]}))
-            continue
+            mo = ["2", C.hexs(new), "?" * (len(pre_opens) + len(wops) + 1)]
         verdict, mfinal, letters = mo
         letters = letters[len(pre_opens):]
         verdicts.append({"case": label, "discipline": int(verdict, 16), "ops_in_window": len(wops), "states": "".join(sorted(set(letters)))})
-        if mfinal != C.hexs(new):
+        if mfinal != C.hexs(new) and ok:
             res.broken.append(("correspondence", {"what": "the file-system model replaying the traced calls ends with a different destination content than the real file", "case": label,
                                                    "model_len": len(mfinal) // 2, "real_len": len(new)}))
         expect_disciplined = not case.get("dirty")
         if expect_disciplined and int(verdict, 16) != 1:
             res.broken.append(("discipline", {"what": "the traced calls do not follow the atomic-replacement discipline the theorem needs (C12_discipline_sound does not apply)", "case": label,
                                                "verdict": int(verdict, 16), "ops": wops[:40]}))
-        case.update(letters=letters, first=first, info=info, trace_ops=ops, label=label)
+        case.update(letters=letters, first=first, info=info, trace_ops=ops, label=label, modelled=ok)
         # ---- injections
         for k in range(first, len(ops)):
             nm, ordn = info[k]["name"], info[k]["ordinal"]
             jobs.append((ci, "kill", "%s:signal=SIGKILL:when=%d" % (nm, ordn), k - first, None))
-            if nm in ("write", "pwrite64"):
+            if nm in ("write", "pwrite64", "copy_file_range", "sendfile"):
                 jobs.append((ci, "error_once", "%s:error=ENOSPC:when=%d" % (nm, ordn), k - first, None))
                 jobs.append((ci, "error_persistent", "%s:error=ENOSPC:when=%d+" % (nm, ordn), k - first, None))
                 if big:
@@ -319,7 +322,7 @@ def run(tier, seed, replay=None):
                     pass        # already reported above
                 if case["kind"] == "build" and letter != "O":
                     res.failing.append(("error-touched-destination", "build reported an error but the previous destination content is not intact", cj))
-        if kind == "kill" and prefix is not None and "letters" in case and not case.get("dirty"):
+        if kind == "kill" and prefix is not None and "letters" in case and not case.get("dirty") and case.get("modelled"):
             ml = case["letters"][prefix] if prefix < len(case["letters"]) else "?"
             if ml != letter:
                 res.broken.append(("correspondence", {"what": "destination state after killing the process differs from the model's state at that prefix", "case": case["label"], "injection": inject,
